@@ -609,6 +609,39 @@ def s_case(draw, flags=(0, 0, 0), writer=True, l2=False):
     return case
 
 
+@st.composite
+def s_l2_small_first(draw):
+    """End-to-end cases aimed at what only mpu_write decides for the lower layers (per sub-stream part-id blocks and
+    lhs_keep): >= 2 sub-streams, the first one (plus header) smaller than the minimum part size, a later one with
+    chunks large enough to spill and write parts on its own before the collation."""
+    m = draw(st.sampled_from([4, 10, 16]))
+    spill = draw(st.sampled_from([m, m + 1, 2 * m, 3 * m]))
+    wpc = draw(st.sampled_from([1, 2, 2, 3]))
+    first = draw(st.integers(0, m - 1))
+    hdr = draw(st.sampled_from([None, None, 0, 1])) if first < m - 1 else None
+    ftr = draw(st.sampled_from([None, None, 0, 1, m]))
+    big = st.integers(2 * m, 6 * m)
+    any_sz = st.one_of(st.integers(0, m), big)
+    nb = draw(st.sampled_from([2, 2, 3]))
+    bags = [[[first]]]
+    for bi in range(1, nb):
+        npart = draw(st.integers(1, 3))
+        bag = []
+        for pi in range(npart):
+            nch = draw(st.sampled_from([1, 2, 2, 3, 4]))
+            bag.append([draw(big if (pi == 0 and k < 2) else any_sz) for k in range(nch)])
+        bags.append(bag)
+    last = bags[-1][-1]
+    if ftr is None and len(last) >= 2:
+        del last[1:]  # a final-flagged partition with >= 2 chunks belongs to the final_multi class
+    case = {"m": m, "spill": spill, "wpc": wpc, "hdr": hdr, "ftr": ftr, "min_part": 1, "slack": draw(st.sampled_from([0, 0, 5])),
+            "writer": True, "kw": draw(st.booleans()), "ba": draw(st.booleans()), "bags": bags,
+            "sched": draw(st.lists(st.integers(0, 7), min_size=12, max_size=12)),
+            "modes": ["cut"] * nb, "as_list": True, "fuse": draw(st.sampled_from([False, False, True])),
+            "nthreads": draw(st.sampled_from([2, 3, 4])), "scheds": ["random", "threads"]}
+    return case
+
+
 # --------------------------------------------------------------------------- small-scope enumeration
 def _compositions(n: int):
     """All ways to cut a sequence of n items into >=1 non-empty adjacent groups (as lists of lengths)."""
@@ -735,6 +768,8 @@ def build(chk: Check) -> None:
             budget_s={"quick": 40, "thorough": 400}, shrink=not q)
     chk.sub("l2_dask_edge", o_l2, strategy=s_case("any", l2=True), n={"quick": 500, "thorough": 12000},
             budget_s={"quick": 35, "thorough": 300}, shrink=not q)
+    chk.sub("l2_small_first_substream", o_l2, strategy=s_l2_small_first(), n={"quick": 200, "thorough": 6000},
+            budget_s={"quick": 60, "thorough": 600}, shrink=False)
     chk.sub("l2_dask_nowriter", o_l2, strategy=s_case((0, 0, 0), writer=False, l2=True), n={"quick": 100, "thorough": 2000},
             budget_s={"quick": 10, "thorough": 60}, shrink=not q)
     chk.known("D15", _k_d15)
